@@ -41,6 +41,16 @@ type c04Query struct {
 	E    *oracle.Expr  `json:"e"`
 	GB   []string      `json:"gb"`
 	Want oracle.Answer `json:"want"`
+	// Hole: the query is sent as AND(E, <empty expression>): structurally incomplete, the library rejects it
+	Hole bool `json:"hole,omitempty"`
+}
+
+// proto renders the query's expression for the wire.
+func (q c04Query) proto() *pb.Query_Expression {
+	if !q.Hole {
+		return q.E.ToProto()
+	}
+	return &pb.Query_Expression{Value: &pb.Query_Expression_And_{And: &pb.Query_Expression_And{Exprs: []*pb.Query_Expression{q.E.ToProto(), {}}}}}
 }
 
 type c04Config struct {
@@ -896,7 +906,7 @@ func c04Server(r *vf.Run) {
 						q = pool[lr.Intn(len(pool))]
 					}
 					qs = append(qs, q)
-					req.Queries = append(req.Queries, &pb.Query{Expr: q.E.ToProto(), GroupBy: q.GB})
+					req.Queries = append(req.Queries, &pb.Query{Expr: q.proto(), GroupBy: q.GB})
 				}
 				ctx, cancel := context.WithTimeout(context.Background(), 120*time.Second)
 				t0 := time.Since(start).Nanoseconds()
